@@ -157,18 +157,18 @@ Proof. intros Hf Hg. rewrite bind_is_then, bind_is_then by assumption. unfold pi
    (io_monad_laws) rather than proved here. *)
 
 (* the hypotheses are met by concrete runs *)
-Definition w_ex : world := {| w_in := [[104%N]]; w_out := [] |}.
+Definition w_ex : world := world_start [[104%N]] [].
 Definition sp0 : span := (0%N, 0%N, 0%N).
 Example left_identity_instance :
   obs (exec 6 [] heap0 w_ex (VIO (IOBind sp0 (VIO (IOReturn (VInt 7))) (EBuiltin b_print) None []))) = Some (w_ex, inr (mkerr c_type sp0))
   /\ obs (exec 6 [] heap0 w_ex (VIO (IOBind sp0 (VIO (IOReturn (VStr [97%N]))) (EBuiltin b_print) None [])))
-     = Some ({| w_in := [[104%N]]; w_out := [97%N; 10%N] |}, inl VNil).
+     = Some (with_io w_ex [[104%N]] [97%N; 10%N], inl VNil).
 Proof. split; vm_compute; reflexivity. Qed.
 Example right_identity_instance :
-  exists h1 d1, exec 4 [] heap0 w_ex (VIO IOInput) = Done h1 {| w_in := []; w_out := [] |} (inl (VStr [104%N])) d1
-  /\ exec 5 [] heap0 w_ex (VIO (IOBind sp0 (VIO IOInput) (EBuiltin b_return) None [])) = Done h1 {| w_in := []; w_out := [] |} (inl (VStr [104%N])) d1.
+  exists h1 d1, exec 4 [] heap0 w_ex (VIO IOInput) = Done h1 (with_io w_ex [] []) (inl (VStr [104%N])) d1
+  /\ exec 5 [] heap0 w_ex (VIO (IOBind sp0 (VIO IOInput) (EBuiltin b_return) None [])) = Done h1 (with_io w_ex [] []) (inl (VStr [104%N])) d1.
 Proof. eexists; eexists; split; vm_compute; reflexivity. Qed.
 Example returned_action_runs :
-  obs (exec 4 [] heap0 w_ex (VIO (IOReturn (VIO (IOPrint [97%N]))))) = Some ({| w_in := [[104%N]]; w_out := [97%N; 10%N] |}, inl VNil).
+  obs (exec 4 [] heap0 w_ex (VIO (IOReturn (VIO (IOPrint [97%N]))))) = Some (with_io w_ex [[104%N]] [97%N; 10%N], inl VNil).
 Proof. vm_compute; reflexivity. Qed.
 Print Assumptions left_identity. Print Assumptions right_identity. Print Assumptions assoc_left. Print Assumptions return_of_action_runs_it.
